@@ -35,15 +35,15 @@ Proof.
   - (* KFunc *) unfold func_check. rewrite filter_app. ifs; rewrite <- ?emit_filter; reflexivity.
 Qed.
 
-Theorem threshold_filter em m stmts :
-  scan_findings em m stmts = filter (keeps m) (scan_findings em (Some Low) stmts).
+Theorem threshold_filter em root m stmts :
+  scan_findings em root m stmts = filter (keeps m) (scan_findings em root (Some Low) stmts).
 Proof.
   unfold scan_findings. rewrite filter_flat_map. apply flat_map_ext_in. intros s _.
   rewrite filter_flat_map. apply flat_map_ext_in. intros t _. apply local_findings_filter.
 Qed.
 
 (* with the lowest threshold nothing is dropped, and every reported finding meets the threshold *)
-Theorem threshold_sound em m stmts f : In f (scan_findings em m stmts) -> keeps m f = true.
+Theorem threshold_sound em root m stmts f : In f (scan_findings em root m stmts) -> keeps m f = true.
 Proof. rewrite threshold_filter. intros H. apply filter_In in H. tauto. Qed.
 
 (* ---- counts ---- *)
@@ -57,8 +57,8 @@ Proof.
   cbn [filter List.length]. destruct (f_sev f); cbn; lia.
 Qed.
 
-Theorem counts_consistent em m stmts :
-  let (fs, c) := scan em m stmts in
+Theorem counts_consistent em root m stmts :
+  let (fs, c) := scan em root m stmts in
   c_total c = List.length fs /\
   c_critical c = count_sev Critical fs /\ c_high c = count_sev High fs /\
   c_medium c = count_sev Medium fs /\ c_low c = count_sev Low fs /\
@@ -66,8 +66,9 @@ Theorem counts_consistent em m stmts :
 Proof. unfold scan, update_counts. cbn. repeat split. apply counts_partition. Qed.
 
 (* ---- no state: scanning a list of statements is scanning each of them ---- *)
-Theorem scan_pure em m a b : scan_findings em m (a ++ b) = scan_findings em m a ++ scan_findings em m b.
-Proof. unfold scan_findings. apply flat_map_app. Qed.
+Theorem scan_pure em root m a b :
+  scan_findings em root m (a ++ b) = scan_findings em root m a ++ scan_findings em root m b.
+Proof. unfold scan_findings, scan_roots. rewrite filter_app. apply flat_map_app. Qed.
 
 (* ---- context closure ---- *)
 Section Closed.
@@ -125,6 +126,9 @@ Section Closed.
   Definition Q_assigns (l : massigns) := forall x, In x (subs_assigns l) -> RL (ast_assigns l) x.
   Definition Q_sets (l : msets) := forall x, In x (subs_sets l) -> RL (ast_sets l) x.
   Definition Q_mwhens (l : mmwhens) := forall x, In x (subs_mwhens l) -> RL (ast_mwhens l) x.
+  Definition Q_colcons (l : mcolcons) := forall x, In x (subs_colcons l) -> RL (ast_colcons l) x.
+  Definition Q_coldefs (l : mcoldefs) := forall x, In x (subs_coldefs l) -> RL (ast_coldefs l) x.
+  Definition Q_tabcons (l : mtabcons) := forall x, In x (subs_tabcons l) -> RL (ast_tabcons l) x.
   Definition Q_stmt (s : mstmt) := forall x, In x (subs s) -> R (ast_stmt s) x.
 
   Ltac self := match goal with H : _ = ?x |- R _ ?x => subst x; unfold R; cbn [ast_sub]; apply qreach_self end.
@@ -134,11 +138,12 @@ Section Closed.
     (forall e, Q_expr e) /\ (forall l, Q_exprs l) /\ (forall l, Q_whens l) /\ (forall o, Q_opt o) /\
     (forall l, Q_items l) /\ (forall t, Q_tref t) /\ (forall l, Q_trefs l) /\ (forall l, Q_joins l) /\
     (forall l, Q_ctes l) /\ (forall l, Q_assigns l) /\ (forall l, Q_sets l) /\ (forall l, Q_mwhens l) /\
+    (forall l, Q_colcons l) /\ (forall l, Q_coldefs l) /\ (forall l, Q_tabcons l) /\
     (forall s, Q_stmt s).
   Proof.
     apply mgrammar_ind;
       unfold Q_expr, Q_exprs, Q_whens, Q_opt, Q_items, Q_tref, Q_trefs, Q_joins, Q_ctes, Q_assigns, Q_sets,
-             Q_mwhens, Q_stmt; intros.
+             Q_mwhens, Q_colcons, Q_coldefs, Q_tabcons, Q_stmt; intros.
     (* mexpr: 13 *)
     - cbn in H. destruct H as [H|[]]. self.
     - cbn in H. destruct H as [H|[]]. self.
@@ -217,6 +222,22 @@ Section Closed.
       apply RL_one in A. via A.
     - cbn [subs_mwhens] in H1. split_in H1. cbn [ast_mwhens].
       destruct H1 as [H1|H1]; [apply RL_cons_hd; apply H in H1; via H1|apply RL_cons_tl; apply H0; exact H1].
+    (* mcolcons *)
+    - destruct H.
+    - cbn [subs_colcons] in H0. cbn [ast_colcons]. apply RL_cons_tl. apply H. exact H0.
+    - cbn [subs_colcons] in H1. split_in H1. cbn [ast_colcons].
+      destruct H1 as [H1|H1]; [apply RL_cons_hd; apply H in H1; apply RL_one in H1; via H1|apply RL_cons_tl; apply H0; exact H1].
+    - cbn [subs_colcons] in H1. split_in H1. cbn [ast_colcons].
+      destruct H1 as [H1|H1]; [apply RL_cons_hd; apply H in H1; apply RL_one in H1; via H1|apply RL_cons_tl; apply H0; exact H1].
+    (* mcoldefs *)
+    - destruct H.
+    - cbn [subs_coldefs] in H1. split_in H1. cbn [ast_coldefs].
+      destruct H1 as [H1|H1]; [apply RL_cons_hd; apply H in H1; via H1|apply RL_cons_tl; apply H0; exact H1].
+    (* mtabcons *)
+    - destruct H.
+    - cbn [subs_tabcons] in H0. cbn [ast_tabcons]. apply RL_cons_tl. apply H. exact H0.
+    - cbn [subs_tabcons] in H1. split_in H1. cbn [ast_tabcons].
+      destruct H1 as [H1|H1]; [apply RL_cons_hd; apply H in H1; apply RL_one in H1; via H1|apply RL_cons_tl; apply H0; exact H1].
     (* mstmt *)
     - rename H6 into Hob. rename H7 into H6. cbn [subs In] in H6. destruct H6 as [E|H6]; [self|]. split_in H6. cbn [ast_stmt].
       destruct H6 as [H6|[H6|[H6|[H6|[H6|[H6|[H6|H6]]]]]]].
@@ -241,6 +262,16 @@ Section Closed.
     - cbn [subs In] in H3. destruct H3 as [E|H3]; [self|]. split_in H3. cbn [ast_stmt].
       destruct H3 as [H3|[H3|[H3|H3]]]; [apply H in H3; apply RL_one in H3; via H3|apply H0 in H3; apply RL_one in H3; via H3
                                         |apply H1 in H3; apply RL_one in H3; via H3|apply H2 in H3; via H3].
+    - (* MCreateView *) cbn [subs In] in H0. destruct H0 as [E|H0]; [self|]. cbn [ast_stmt].
+      apply H in H0. apply RL_one in H0. via H0.
+    - (* MCreateMView *) cbn [subs In] in H0. destruct H0 as [E|H0]; [self|]. cbn [ast_stmt].
+      apply H in H0. apply RL_one in H0. via H0.
+    - (* MCreateIndex *) cbn [subs In] in H0. destruct H0 as [E|H0]; [self|]. cbn [ast_stmt].
+      apply H in H0. via H0.
+    - (* MCreateTable *) cbn [subs In] in H1. destruct H1 as [E|H1]; [self|]. split_in H1. cbn [ast_stmt].
+      destruct H1 as [H1|H1]; [apply H in H1; via H1|apply H0 in H1; via H1].
+    - (* MExplain *) cbn [subs In] in H0. destruct H0 as [E|H0]; [self|]. cbn [ast_stmt].
+      apply H in H0. apply RL_one in H0. via H0.
   Qed.
 
   (* every position of the grammar is reached by the traversal of the prescribed tree: C14 completeness *)
@@ -249,21 +280,51 @@ Section Closed.
 
   (* C16 context closure: what the local detectors report on the payload node they report wherever the payload
      occurs, in that or any nested statement, for every threshold *)
-  Theorem context_closed : forall m s x f,
-    In x (subs s) -> In f (local_findings m (ast_sub x)) -> In f (scan_findings em m [ast_stmt s]).
+  (* ... provided the scan STARTS from the statement: every statement kind of the grammar is a root of Scan *)
+  Variable root : kind -> bool.
+  Hypothesis roots_ok : roots_cover root = true.
+
+  Lemma stmt_kind_root : forall s, root (q_kind (ast_stmt s)) = true.
   Proof.
-    intros m s x f Hx Hf. unfold scan_findings. cbn [flat_map]. rewrite app_nil_r.
+    intros s. unfold roots_cover in roots_ok. rewrite forallb_forall in roots_ok. apply roots_ok.
+    destruct s; cbn; tauto.
+  Qed.
+
+  Theorem statement_is_root : forall s, scan_roots root [ast_stmt s] = [ast_stmt s].
+  Proof. intros s. unfold scan_roots. cbn [filter]. rewrite stmt_kind_root. reflexivity. Qed.
+
+  Theorem context_closed : forall m s x f,
+    In x (subs s) -> In f (local_findings m (ast_sub x)) -> In f (scan_findings em root m [ast_stmt s]).
+  Proof.
+    intros m s x f Hx Hf. unfold scan_findings. rewrite statement_is_root. cbn [flat_map]. rewrite app_nil_r.
     apply in_flat_map. exists (ast_sub x). split; [apply position_visited; exact Hx|exact Hf].
   Qed.
 
   (* and nothing is reported that no node of the tree produces *)
   Theorem findings_sound : forall m t f,
-    In f (scan_findings em m [t]) -> exists n, qreach em t n /\ In f (local_findings m n).
+    In f (scan_findings em root m [t]) -> exists n, qreach em t n /\ In f (local_findings m n).
   Proof.
-    intros m t f H. unfold scan_findings in H. cbn [flat_map] in H. rewrite app_nil_r in H.
+    intros m t f H. unfold scan_findings, scan_roots in H. cbn [filter] in H.
+    destruct (root (q_kind t)); [|destruct H]. cbn [flat_map] in H. rewrite app_nil_r in H.
     apply in_flat_map in H. destruct H as [n [Hn Hf]]. exists n. split; [apply qwalk_sound; exact Hn|exact Hf].
   Qed.
 End Closed.
+
+(* ---- EXPLAIN q before /repo kept the query in the tree: the payload position exists in the statement, the tree the
+   parser built had no node for it, whatever Children() returns and whatever the roots are ---- *)
+Definition ex_explained_payload : mexpr := MBin "=" (MLit "1" "int") (MLit "1" "int").
+Definition ex_explained_query : mstmt :=
+  MSelect CNil (ICons (MCol "" (mkName "a" eq_refl)) "" INil) (TCons (TName (mkT "users" eq_refl) "") TNil) JNil
+          (OSome ex_explained_payload) ENil ONone ENil.
+Theorem explain_query_dropped em root :
+  exists q x f, In x (subs (MExplain q)) /\ In f (local_findings (Some Low) (ast_sub x)) /\
+                ~ In f (scan_findings em root (Some Low) [explain_pinned]).
+Proof.
+  exists ex_explained_query, (SubE ex_explained_payload), taut. split; [|split].
+  - cbn. tauto.
+  - cbn. tauto.
+  - unfold scan_findings, scan_roots, explain_pinned. cbn. destruct (root KDescribe); cbn; tauto.
+Qed.
 
 (* ---- the documented payloads, on the payload node itself (letter case of keywords / function names free) ---- *)
 Lemma upper_idem_eq : upper "=" = "=". Proof. reflexivity. Qed.
